@@ -469,6 +469,7 @@ func mergeInto(dst *interp.Stats, src *interp.Stats) {
 	dst.AssertsTotal += src.AssertsTotal
 	dst.Discharged += src.Discharged
 	dst.Inconclusive += src.Inconclusive
+	dst.SolverRetries += src.SolverRetries
 	dst.Unsupported += src.Unsupported
 	dst.FuelOut += src.FuelOut
 	dst.Instr += src.Instr
